@@ -11,7 +11,9 @@ Correspondence:
 Oracle (`search`): histories of plan edits (drop, re-add, rename and move outputs, re-role between
 output and volatile, change working directories, flip optional, drop the consumer of an optional
 step, move steps between plans, adopt an output with static(), drop amended outputs) with a build
-after each edit.  After every complete unrestricted build with cleaning:
+after each edit; and histories over trees of plans (2-4 levels of nested plans plus sibling plans,
+dependencies across plans, optional producers high up whose only consumers sit deep down) in which
+a sub-plan at any level is dropped or re-added, a plan is touched, a source is edited.  After every complete unrestricted build with cleaning:
  * files on disk that are not sources, not outputs of steps the final plan needs, that StepUp
    produced and nobody modified, must be gone (unless an active step still uses them);
  * every detached node left in the database must be held, through creator-to-product and
@@ -262,6 +264,68 @@ def run_case(seed_key, tier: str):
     return found, stats, lines, impl, history
 
 
+def run_tree_case(seed_key, tier: str):
+    """One history over a tree of plans (2-4 levels, sibling plans, dependencies across plans,
+    optional producers high up with consumers deep down): drop / re-add a sub-plan at any level,
+    touch a plan, edit a source, flip optional, drop a step; a build after every edit."""
+    from simdirector import SimDirector
+
+    r = case_rng(("tree",) + tuple(seed_key))
+    found: list[Finding] = []
+    stats: dict[str, int] = {}
+    lines: list[str] = []
+    impl: list[str] = []
+
+    def count(key, n=1):
+        stats[key] = stats.get(key, 0) + n
+
+    tree = ck.gen_plan_tree(r)
+    model = tree.as_model()
+    truth = ck.Truth()
+    truth.declare(model)
+    history: list = [("tree", {"plans": {p: i["parent"] for p, i in tree.plans.items()},
+                               "steps": [dict(s) for s in tree.steps], "motif": tree.motif})]
+    case = {"seed_key": list(seed_key), "family": "plan-tree", "history": history}
+    nphase = r.randint(2, 5)
+    with ck.Probe() as probe, SimDirector(tree.render(), seed=r.randint(0, 10**6)) as sim:
+        probe.sim = sim
+        for phase in range(nphase):
+            kw = {"njob": r.randint(1, 3)}
+            history.append(("build", kw))
+            res = sim.build(**kw)
+            records = probe.take()
+            truth.note_build(res.runs, (), model)
+            count("builds")
+            if res.status != "done":
+                count(f"build-status-{res.status}")
+                history.append(("status", res.status, (res.error or "")[-300:]))
+                break
+            history.append(("ran", res.commands, str(res.returncode)))
+            for rec in records:
+                if rec.pre_db is not None and rec.post_db is not None and rec.queue is not None:
+                    line, answer = corr_line(rec, probe.tokens)
+                    lines.append(line)
+                    impl.append(answer)
+            if ck.returncode_incomplete(res.returncode.value):
+                count("builds-incomplete")
+            else:
+                count("builds-complete")
+                check_after_build(found, count, case, model, truth, sim, ck.read_db_of(sim), ck.snapshot(sim.root))
+                for rec in records:
+                    if rec.before and rec.after:
+                        count("removed-files", len(set(rec.before[0]) - set(rec.after[0])))
+            if phase == nphase - 1:
+                break
+            old_project = tree.render()
+            tree, kind = ck.mutate_plan_tree(r, tree)
+            count(f"tree-edit-{kind.split(':')[0]}")
+            sim.apply(ck.edits_between(old_project, tree.render()))
+            model = tree.as_model()
+            truth.declare(model)
+            history.append(("edit", kind))
+    return found, stats, lines, impl, history
+
+
 # ---------------------------------------------------------------------------------------------
 # Directed scenarios: the expected findings
 # ---------------------------------------------------------------------------------------------
@@ -468,10 +532,11 @@ def f6_scenario(seed: int = 0):
 # ---------------------------------------------------------------------------------------------
 
 
-async def run_histories(ctx, salt: str, n: int, with_model: bool):
+async def run_histories(ctx, salt: str, n: int, with_model: bool, case_fn=None):
     lines, impl = [], []
+    case_fn = case_fn or run_case
     for i in range(n):
-        found, stats, ls, im, history = await asyncio.to_thread(run_case, (ctx.seed, salt, i), ctx.tier)
+        found, stats, ls, im, history = await asyncio.to_thread(case_fn, (ctx.seed, salt, i), ctx.tier)
         for f in found:
             ctx.finding(f)
         for k, v in stats.items():
@@ -493,14 +558,16 @@ async def run_histories(ctx, salt: str, n: int, with_model: bool):
 
 async def correspond(ctx):
     await kcorr.run(ctx, SCOPES, quick=(60, 60), thorough=(1500, 80), salt="c07")
-    await run_histories(ctx, "corr-hist", ctx.budget(120, 1500), with_model=True)
+    await run_histories(ctx, "corr-hist", ctx.budget(100, 1300), with_model=True)
+    await run_histories(ctx, "corr-tree", ctx.budget(40, 500), with_model=True, case_fn=run_tree_case)
     ctx.stats.rule = ("kernel request sequences (a case is one request; distinct = distinct database states) + one case "
                       "per cleanup pass of a simulated build (database before revert_optional_steps -> model -> database "
                       "after delete_detached and the queue); histories count as non-trivial when a file was removed")
 
 
 async def search(ctx):
-    await run_histories(ctx, "oracle-hist", ctx.budget(220, 3500), with_model=False)
+    await run_histories(ctx, "oracle-hist", ctx.budget(180, 3000), with_model=False)
+    await run_histories(ctx, "oracle-tree", ctx.budget(120, 1500), with_model=False, case_fn=run_tree_case)
     for variant in range(ctx.budget(1, 3)):
         found, stats, summary = await asyncio.to_thread(f5_scenario, variant)
         for f in found:
@@ -531,6 +598,8 @@ async def replay(ctx, detail):
         found, *_ = await asyncio.to_thread(rerole_scenario)
     elif d.get("scenario") == "indirect":
         found, *_ = await asyncio.to_thread(indirect_scenario)
+    elif d.get("seed_key") and d.get("family") == "plan-tree":
+        found, *_ = await asyncio.to_thread(run_tree_case, tuple(d["seed_key"]), ctx.tier)
     elif d.get("seed_key"):
         found, *_ = await asyncio.to_thread(run_case, tuple(d["seed_key"]), ctx.tier)
     else:
